@@ -21,7 +21,7 @@ THEOREMS = [
     'Pyiga.Props.C19.findspan_fuel_irrelevant',
     'Pyiga.Props.C19.make_knots_length', 'Pyiga.Props.C19.make_knots_numdofs', 'Pyiga.Props.C19.make_knots_sorted',
     'Pyiga.Props.C19.make_knots_mesh', 'Pyiga.Props.C19.make_knots_numspans', 'Pyiga.Props.C19.make_knots_last_breakpoint',
-    'Pyiga.Props.C19.make_knots_mults', 'Pyiga.Props.C19.make_knots_open',
+    'Pyiga.Props.C19.make_knots_mults', 'Pyiga.Props.C19.make_knots_open', 'Pyiga.Props.C19.make_knots_rounded',
     'Pyiga.Props.C19.mesh_strictly_increasing', 'Pyiga.Props.C19.mesh_knots_to_mesh', 'Pyiga.Props.C19.knots_to_mesh_monotone',
     'Pyiga.Props.C19.mesh_span_indices_spec', 'Pyiga.Props.C19.mesh_span_indices_count',
     'Pyiga.Props.C19.mesh_support_consistency',
